@@ -369,6 +369,8 @@ def r6_autoref(ctx):
 def r7_membership(ctx):
     """validate_options as: no options -> accept; some option equal to the value -> accept; none -> error.  The
     quantifier over the options may be a first-match loop with for-else or `any(...)`; both are read from resolved paths."""
+    from . import C18 as _C18
+    _C18.r8_comparisons(ctx)     # what `option == value` and the comparisons inside conditions mean (tolerance, common unit): shared with C18.R8
     from ..flowexpr import consistent, explore
     from ..model import cnorm
     fn = ctx.fn(SEL, "SelectNode.validate_options")
@@ -516,7 +518,7 @@ RULES = [
     ("C16.R4", "condition results are dereferenced only under a type test; logical operators wrap bare booleans (computed from the comparison methods' return kinds)", r4_guarded_deref),
     ("C16.R5", "dimension bounds: < min and > max raise; modifications use the same caster", r5_dimension_bounds),
     ("C16.R6", "{?} bound before and cleared after each condition", r6_autoref),
-    ("C16.R7", "option membership: first equal accepts, exhaustion raises, no options accept", r7_membership),
+    ("C16.R7", "option membership: first equal accepts, exhaustion raises, no options accept; equality is the tolerant, unit-aware comparison of C18.R8 (shared)", r7_membership),
     ("C16.R8", "property lines attach to the node defined or modified last (cursor written on both dispatch paths, read by all six property kinds)", r8_property_target),
     ("C16.R9", "node copies are deep", r9_deep_copies),
 ]
